@@ -24,11 +24,13 @@ Step(e) ==
     \/ e.act.op = "Edit" /\ Edit(e.act.p, e.act.c)
     \/ e.act.op = "Build" /\ BuildAny([state |-> e.act.cfg.state]) /\ last'.listing = Lst(e.res.listing)
     \/ e.act.op = "Sub" /\ Sub(e.act.d) /\ last'.listing = Lst(e.res.listing)
+    \/ e.act.op = "BuildOther" /\ BuildOther
     \/ e.act.op = "Perm" /\ Tick /\ act' = [op |-> "Perm"] /\ UNCHANGED <<ws, warm, last>>
 Match == Have /\ Step(Ev) /\ l' = l + 1 /\ UNCHANGED tid
 Say(tag, clause) == PrintT(<<tag, "C03", clause, tid, l, {}>>)
 Resync == /\ ws' = IF Ev.act.op = "Edit" THEN [ws EXCEPT ![Ev.act.p] = Ev.act.c] ELSE ws
-          /\ warm' = IF Ev.act.op = "Build" /\ Ev.act.cfg.state = "real" THEN [p \in Paths |-> IF p \in Files(ws) THEN ws[p] ELSE warm[p]] ELSE warm
+          /\ warm' = IF Ev.act.op = "Build" /\ Ev.act.cfg.state = "real" THEN [p \in Paths |-> IF p \in Files(ws) THEN ws[p] ELSE warm[p]]
+                     ELSE IF Ev.act.op = "BuildOther" THEN [p \in Paths |-> IF p \in Files(ws) THEN "other:" \o ws[p] ELSE warm[p]] ELSE warm
           /\ last' = [op |-> Ev.act.op, listing |-> IF "listing" \in DOMAIN Ev.res THEN Lst(Ev.res.listing) ELSE {}]
           /\ act' = [op |-> Ev.act.op] /\ steps' = steps + 1
 Fail == Have /\ ~ENABLED Match /\ Resync /\ l' = l + 1 /\ UNCHANGED tid /\ Say("DIVERGENCE", Ev.act.op)
